@@ -1,7 +1,9 @@
 package main
 
 import (
+	"encoding/json"
 	"fmt"
+	"os"
 	"sort"
 	"strings"
 
@@ -314,5 +316,28 @@ func init() {
 }
 
 func doReplay(prop, file string) {
+	b, err := os.ReadFile(file)
+	if err != nil {
+		fmt.Println(err)
+		return
+	}
+	var rp struct {
+		Replay struct {
+			Case json.RawMessage `json:"case"`
+		} `json:"replay"`
+	}
+	json.Unmarshal(b, &rp)
+	var inner struct {
+		Case *RCase `json:"case"`
+	}
+	if json.Unmarshal(rp.Replay.Case, &inner) == nil && inner.Case != nil {
+		c := *inner.Case
+		o := runRender(c)
+		ob, _ := json.Marshal(o)
+		fmt.Printf("IMPL: %s\n", ob)
+		renderPrelude()
+		fmt.Printf("COQ:\n%s\nLocal Open Scope string_scope.\nDefinition c := %s.\nDefinition r := Eval vm_compute in match run_case names c with OOk out st => (0%%nat, out, 0%%nat, slog st) | OErr ln e st => (1%%nat, [], ln, slog st) | OParseErr _ => (2%%nat, [], 0%%nat, []) | OPanic s => (3%%nat, [s], 0%%nat, []) | OFuel => (4%%nat, [], 0%%nat, []) | OUnsup => (5%%nat, [], 0%%nat, []) end.\nPrint r.\n", "From Coq Require Import String.\n"+shardPrelude["render"], c.CoqTerm(o))
+		return
+	}
 	fmt.Printf("replay of %s from %s: re-run ./check %s to reproduce; the replay file holds the failing input and both observations\n", prop, file, prop)
 }
